@@ -433,6 +433,8 @@ def call_conv(c, pts, scalar):
         d = as_form([p[1] for p in pts], form)
     ka, kd = snapshot(a), snapshot(d)
     o = one(a, d, form)
+    if c.get("_raw") is not None:
+        c["_raw"].extend(list(o) if isinstance(o, (tuple, list)) else [o])
     if not (unchanged(a, ka) and unchanged(d, kd)):
         raise AssertionError("input arrays modified")
     cols = [np.asarray(v, dtype="f8").ravel() for v in o]
@@ -614,6 +616,8 @@ class Reuse(Entry):
             second = pts_for_form(r, "f8", n, lo2, hi2, lo1, hi1)
             second[0], second[-1] = first[0], first[-1]          # same length, same first and last elements
             c["pts"], c["pts2"] = first, second
+            lo, hi = max(lo1, lo2), min(hi1, hi2)
+            c["pts3"] = [(v, v) for v in (r.uniform(lo, hi) for _ in range(3))]      # same value (and object) for both arguments
             cs.append(c)
         return cs
 
@@ -636,10 +640,31 @@ class Reuse(Entry):
             o2 = arr_call(a, d)
             o3 = arr_call(np.array([p[0] for p in p1], dtype="f8"), np.array([p[1] for p in p1], dtype="f8"))   # new objects, first contents
             o4 = arr_call(a, d)                                  # same objects again, unchanged
+            # ownership: the caller scribbles over the RETURNED arrays; the arguments must not change with them and the
+            # next call must not see the scribble
+            raw = []
+            o5 = call_conv(dict(co, _arrays=(a, d), _raw=raw), p1, False)
+            ka, kd = a.copy(), d.copy()
+            for out_arr in raw:
+                if isinstance(out_arr, np.ndarray) and out_arr.flags.writeable and out_arr.ndim > 0:
+                    if np.shares_memory(out_arr, a) or np.shares_memory(out_arr, d):
+                        raise AssertionError("a returned array shares memory with an argument")
+                    out_arr[...] = 777.25
+            if not (np.array_equal(a, ka) and np.array_equal(d, kd)):
+                raise AssertionError("writing into a returned array changed an argument")
+            o6 = arr_call(a, d)
+            # aliasing: the SAME array object as both arguments
+            p3 = [tuple(p) for p in c.get("pts3", [])]
+            o7, s3 = [], []
+            if p3:
+                both = np.array([p[0] for p in p3], dtype="f8")
+                o7 = call_conv(dict(co, _arrays=(both, both)), p3, False)
+                s3 = call_conv(co, p3, True)
             s1 = call_conv(co, p1, True)
             s2 = call_conv(co, p2, True)
             j = lambda l: [[jf(x) for x in t] for t in l]
-            return {"arr": j(o1) + j(o2) + j(o3) + j(o4), "sca": j(s1) + j(s2) + j(s1) + j(s2)}
+            return {"arr": j(o1) + j(o2) + j(o3) + j(o4) + j(o5) + j(o6) + j(o7),
+                    "sca": j(s1) + j(s2) + j(s1) + j(s2) + j(s2) + j(s2) + j(s3)}
         return core.guarded(f)
 
     def term(self, c, out):
@@ -1177,6 +1202,39 @@ def proof_step_retry(ctx, attempts=3):
     return False
 
 
+GEN_V = os.path.join(core.COQDIR, "theories", "C09", "Gen.v")
+GEN_GOOD = GEN_V + ".good"
+
+
+def restore_good_gen(ctx, why):
+    """put the last good Gen.v back (-> True when Gen.v changed)"""
+    if not os.path.exists(GEN_GOOD):
+        ctx.count("gen-good:missing")
+        return False
+    good = open(GEN_GOOD).read()
+    cur = open(GEN_V).read() if os.path.exists(GEN_V) else None
+    ctx.count("gen-good:restored (%s)" % why)
+    if cur == good:
+        return False
+    tmp = GEN_V + ".tmp.%d" % os.getpid()
+    with open(tmp, "w") as f:
+        f.write(good)
+    os.replace(tmp, GEN_V)
+    return True
+
+
+def remember_good_gen(ctx):
+    """after a completely green run on /repo itself: this Gen.v is the last good one"""
+    if core.REPO != "/repo" or ctx.violations or any(not ok for _, ok in ctx.obligations):
+        return
+    cur = open(GEN_V).read()
+    if not os.path.exists(GEN_GOOD) or open(GEN_GOOD).read() != cur:
+        tmp = GEN_GOOD + ".tmp.%d" % os.getpid()
+        with open(tmp, "w") as f:
+            f.write(cur)
+        os.replace(tmp, GEN_GOOD)
+
+
 def deep_step_start(ctx):
     """Print Assumptions over the theorems of C09/DeepProperties.v (proof-deepening round; built by the proof step as an
     extra target), run in a thread next to the case evaluation: -> (theorem names, future)"""
@@ -1231,12 +1289,19 @@ def run(ctx, replay=None):
         ctx.obligation("Gen.v regenerated from esutil/coords.py", False, str(e))
         ctx.violation("translation of the constants/shape of esutil/coords.py failed: %s" % e,
                       {"kind": "translation", "error": str(e), "no_longer_checks": "tie of C09/Gen.v to esutil/coords.py"}, found_input=False)
+        # no masking: the search for a failing input goes on against the LAST GOOD model (Gen.v.good, written by the last
+        # green run on /repo), not against whatever an earlier run left in Gen.v
+        restore_good_gen(ctx, "the translator failed closed")
     # 2. theorems (re-proved against the regenerated constants)
     proofs_ok = proof_step_retry(ctx)
     if not proofs_ok:
         # Exec.v depends on Gen/Model/Spec only: keep looking for a failing input
         ok, log = core.coq_make(["theories/C09/Exec.vo"])
+        if not ok and restore_good_gen(ctx, "Exec.vo does not build on the regenerated Gen.v"):
+            ok, log = core.coq_make(["theories/C09/Exec.vo"])
         if not ok:
+            ctx.violation("the case evaluator C09/Exec.vo does not build even on the last good Gen.v: no case could be run",
+                          {"kind": "proof-build", "log_tail": log[-2000:]}, found_input=False)
             return
     entries = [Shift(), Forms(), Reuse(), History(), SdssReject()]
     if replay is not None and replay.get("entry") == "cert":
@@ -1255,3 +1320,5 @@ def run(ctx, replay=None):
     ctx.count("wall_s:certificates", round(time.time() - t0, 1))
     if deep is not None:
         deep_step_finish(ctx, *deep)
+    if gen_ok and proofs_ok:
+        remember_good_gen(ctx)
